@@ -257,12 +257,12 @@ func matrixJobs(c *vh.Ctx) []job {
 			if safeIO.MatchString(pos) {
 				// file names and commands built from value classes stay inside the scratch directory / are harmless
 				if strings.Contains(pos, "| X") || strings.Contains(pos, "X |") || strings.Contains(pos, "system") {
-					expr = `("true " ` + vc.expr + `)`
+					expr = `("true " (` + vc.expr + `))`
 					if strings.HasPrefix(vc.name, "str-nul") || strings.HasPrefix(vc.name, "str-ff") || strings.HasPrefix(vc.name, "str-bad") {
 						expr = `"true"`
 					}
 				} else {
-					expr = `("` + scratchDir + `/f_" ` + vc.expr + `)`
+					expr = `("` + scratchDir + `/f_" (` + vc.expr + `))` // parenthesised: `"dir/f_" -0` would be a subtraction and name the file "0"
 				}
 			}
 			src := strings.ReplaceAll(pos, "X", "("+expr+")")
